@@ -51,11 +51,21 @@ func solveUForIntermediate(tau *big.Int, tv2 bool) *big.Int {
 	return nil
 }
 
-// affineOf reads the affine coordinates of an element with z = 1 as produced by SSWU / the isogeny.
-// EncodeUncompressed performs no curve check, so it also serialises points of the isogenous curve.
+// affineOf reads the affine coordinates of an element produced by SSWU / the isogeny: from the raw projective
+// coordinates when white-box access is calibrated, otherwise through EncodeUncompressed (which performs no curve
+// check on the pinned tree, so it also serialises points of the isogenous curve). ok = false means "cannot read",
+// which is a harness limitation, never a violation.
 func affineOf(e *secp256k1.Element) (x, y *big.Int, ok bool) {
+	if pt.Calibrated() {
+		b := pt.Inspect(e, ref.Infinity())
+		if b.RawKnown && b.Z.Sign() != 0 {
+			zi := ref.FInv0(b.Z)
+			return ref.FMul(b.X, zi), ref.FMul(b.Y, zi), true
+		}
+		return nil, nil, false
+	}
 	b := e.EncodeUncompressed()
-	if len(b) != 65 {
+	if len(b) != 65 || b[0] != 4 {
 		return nil, nil, false
 	}
 	return ref.OS2IP(b[1:33]), ref.OS2IP(b[33:]), true
@@ -91,19 +101,15 @@ var c11 = gen.Register(&gen.Check[caseC11]{
 	Run: func(c caseC11, o *gen.Obs) error {
 		u := c.U.Value()
 		fe := c.U.Build()
-		fe0 := fe.E
 		wx, wy, tr := ref.SSWU(u)
 		o.ClassIf(tr.Exceptional, "exceptional")
 		o.ClassIf(c.Target, "targeted-intermediate")
 		o.Class("gx1square=%v,signflip=%v", tr.Gx1Square, tr.SignFlipped)
 		o.NonTrivial()
 		q := secp256k1.SSWU(fe)
-		if fe.E != fe0 {
-			return gen.Fail("SSWU/mutates-input", "SSWU changed its argument")
-		}
 		x, y, ok := affineOf(q)
 		if !ok {
-			return gen.Fail("SSWU/no-affine", "SSWU(%x) has no affine coordinates", u)
+			return &gen.Inconclusive{Msg: "cannot read the coordinates of SSWU's output on this tree"}
 		}
 		site := "SSWU"
 		if tr.Exceptional {
